@@ -17,6 +17,10 @@ T = {
  "C08": ("Static analysis of the embedded SQL: every statement site (145 evaluations incl. migrations, parameters bound per call site) is extracted symbolically, instantiated and parsed by SQLite against the schema obtained by executing only the migrations' DDL in order; placeholder counts and bound-argument lengths are compared as polynomials over len() atoms (catches mis-bound batches that go-sqlite3 silently accepts); chunk discipline and the variable limit; Scan arity vs result columns; *sql.Tx typestate in wrapTx (exactly one Commit/Rollback, Commit only on nil, rollback on panic, no escape); tracer sibling agreement; rows.Err typestate. Decides that each statement is well-formed and binds what it declares for every batch size; it does not decide result equivalence with a relational model.",
          "Trusts go/ssa, SQLite 3.45 parser from go-sqlite3, the assumption that flag sets hold <= 16 flags, and that access paths are not reassigned between the query construction and its use.",
          "symbolic extraction of embedded SQL + polynomial arity comparison + SQLite-as-parser + typestate rules on SSA", "DESIGN.md 4/C08"),
+
+ "C16": ("Static analysis: (1) the number parser rejects, on every accumulation step, values above a constant <= 2^32-1, and every conversion to the 32-bit SeqID/UID types in internal/state has a bounded operand, so no message-set number can be truncated or wrapped onto another message; (2) every consumer of resolved sequence intervals checks both ends against the view before use (per iteration, dominating the use, or in a universal error-returning check loop); (3) no UID/SeqID value or difference is reinterpreted in a narrower or signed 32-bit type; (4) loops over a set's intervals are left only by exhaustion or return (result independent of the order in which the set was written). The set algebra itself (range normalisation, '*') is not decided.",
+         "Trusts go/ssa; rule tables of view-bound check functions are derived structurally (SeqID parameter compared with len(list.msg)).",
+         "dominator-based bound-check rules + conversion/type-width lint over SSA + loop-exit shape rule", "DESIGN.md 4/C16"),
 }
 NA_REASON = {}
 checks = []
